@@ -696,7 +696,7 @@ func (c *Client) probe(kind string, script []CandOp) {
 
 // playCandidate runs a scripted candidate; the session stays on polling.
 func (c *Client) playCandidate(s streamConn, script []CandOp) {
-	gotPong := false
+	gotPong, sentProbe := false, false
 	for _, op := range script {
 		if op.WaitMs > 0 {
 			simrt.Sleep(time.Duration(op.WaitMs) * time.Millisecond)
@@ -705,6 +705,7 @@ func (c *Client) playCandidate(s streamConn, script []CandOp) {
 		switch op.Op {
 		case "probe":
 			err = s.sendPacket(ref.Packet{Type: tPing, Data: []byte("probe")})
+			sentProbe = err == nil
 		case "waitpong":
 			var p ref.Packet
 			p, err = s.recvPacket()
@@ -727,7 +728,19 @@ func (c *Client) playCandidate(s streamConn, script []CandOp) {
 			err = s.sendPacket(ref.Packet{Type: 9, Data: []byte(op.Arg)})
 		case "upgrade":
 			// a script that sends upgrade after a proper probe IS a conformant
-			// switch as far as the server can tell; the client follows through
+			// switch as far as the server can tell; the client follows through.
+			// The server answers a probe before it reads the next packet of the
+			// stream, so 'probe ... upgrade' without an explicit wait is the same
+			// thing: the client collects the pong first, as a real one would.
+			for k := 0; sentProbe && !gotPong && k < 8; k++ {
+				p, rerr := s.recvPacket()
+				if rerr != nil {
+					c.rec("c-cand-end", rerr.Error(), 0)
+					return
+				}
+				gotPong = p.Type == tPong && string(p.Data) == "probe"
+				c.rec("c-cand-recv", pktString(p), 0)
+			}
 			if gotPong {
 				c.pausing = true
 				simrt.Block(func() bool { return c.closed || (!c.polling && !c.posting) })
